@@ -51,19 +51,25 @@ Qed.
 Lemma clause_nil : forall n b, clause n b = [] <-> b = true.
 Proof. intros n b; destruct b; cbn; split; intros H; try reflexivity; discriminate. Qed.
 
+Definition replies_arrived (os : list obs) : Prop := forall o, In o os -> ob_reply_ok o = true.
+
 Theorem check_history_sound : forall ops os,
   check (mkCase ops os) = [] <->
-  no_panic os /\ nothing_held os /\ canaries_served true ops os [] /\ canaries_served false ops os [].
+  no_panic os /\ nothing_held os /\ (canaries_served true ops os [] /\ replies_arrived os) /\
+  canaries_served false ops os [].
 Proof.
   intros ops os. unfold check.
-  rewrite !app_nil_iff. rewrite !clause_nil. rewrite <- !canaries_ok_iff.
-  unfold no_panic, nothing_held. rewrite !forallb_forall.
+  rewrite !app_nil_iff. rewrite !clause_nil. rewrite andb_true_iff. rewrite <- !canaries_ok_iff.
+  unfold no_panic, nothing_held, replies_arrived. rewrite !forallb_forall.
   split.
-  - intros (H1 & H2 & H3 & H4). repeat split; auto.
+  - intros (H1 & H2 & (H3 & H5) & H4).
+    split; [|split; [|split; [split; assumption|assumption]]].
     + intros o Ho E. specialize (H1 o Ho). rewrite E in H1. discriminate.
-    + specialize (H2 o H). apply andb_true_iff in H2 as [H2 _]. intros E. rewrite E in H2. discriminate.
-    + specialize (H2 o H). apply andb_true_iff in H2 as [_ H2]. destruct (ob_locks o); [reflexivity|discriminate].
-  - intros (H1 & H2 & H3 & H4). repeat split; auto.
+    + intros o Ho. specialize (H2 o Ho). apply andb_true_iff in H2 as [Ha Hb]. split.
+      * intros E. rewrite E in Ha. discriminate.
+      * destruct (ob_locks o); [reflexivity|discriminate].
+  - intros (H1 & H2 & (H3 & H5) & H4).
+    split; [|split; [|split; [split; assumption|assumption]]].
     + intros o Ho. apply negb_true_iff, Nat.eqb_neq, H1, Ho.
     + intros o Ho. destruct (H2 o Ho) as [Ha Hb]. rewrite Hb. apply andb_true_iff. split; [|reflexivity].
       apply negb_true_iff, Nat.eqb_neq, Ha.
@@ -75,8 +81,15 @@ Proof.
   intros a b; destruct a, b; cbn; split; intros H; try discriminate; try (destruct H; discriminate); auto.
 Qed.
 
-Theorem check_race_sound : forall v crashed served,
-  check (mkRace v crashed served) = [] <-> crashed = false /\ served = true.
+Theorem check_race_sound : forall v crashed hung served,
+  check (mkRace v crashed hung served) = [] <-> crashed = false /\ hung = false /\ served = true.
 Proof.
-  intros v a b; destruct a, b; cbn; split; intros H; try discriminate; try (destruct H; discriminate); auto.
+  intros v a b c; destruct a, b, c; cbn; split; intros H; try discriminate;
+    try (destruct H as (H1 & H2 & H3); discriminate); auto.
+Qed.
+
+Theorem check_abnormal_sound : forall crashed hung,
+  check (mkAbnormal crashed hung) = [] <-> crashed = false /\ hung = false.
+Proof.
+  intros a b; destruct a, b; cbn; split; intros H; try discriminate; try (destruct H; discriminate); auto.
 Qed.
